@@ -12,6 +12,8 @@ import bounded.control  # noqa: E402
 import bounded.packing_validate  # noqa: E402
 import bounded.qap  # noqa: E402
 import bounded.tsplib  # noqa: E402
+import bounded.order1d  # noqa: E402
+import contracts.order1d  # noqa: E402
 import contracts.tsplib  # noqa: E402
 import contracts.control  # noqa: E402
 import bounded.bl_reference  # noqa: E402
@@ -95,7 +97,7 @@ QO = "moptipyapps.qap.objective"
 PLANS["C13"] = Plan(
     "C13", "proof",
     functions=[E1 + ":__move_down", E1 + ":__move_left", E1 + ":_decode", E2 + ":__move_down", E2 + ":__move_left",
-               E2 + ":_decode"] + _OBJ + [ER + ":count_errors", PL + ":game_plan_length", GE + ":map_games",
+               E2 + ":_decode"] + _OBJ + ["moptipyapps.order1d.distances:swap_distance", ER + ":count_errors", PL + ":game_plan_length", GE + ":map_games",
                "moptipyapps.tsp.tour_length:tour_length", "moptipyapps.tsp.ea1p1_revn:rev_if_not_worse",
                "moptipyapps.tsp.fea1p1_revn:rev_if_h_not_worse", QO + ":_evaluate"],
     lemmas=["tri_bound"],
@@ -157,6 +159,19 @@ PLANS["C18"] = Plan(
                  "the published optima)", "index walkers of the explicit formats and the tokenizer: bounded only"],
 )
 
+PLANS["C20"] = Plan(
+    "C20", "other",
+    functions=["moptipyapps.order1d.distances:swap_distance"],
+    bounded=[bounded.order1d.harness],
+    explanation="proved: swap_distance never leaves its arrays, reads the scratch flags only after writing them, returns a value "
+                "in [0, n] (for every x with entries in range). bounded/exhaustive: swap_distance == minimum number of "
+                "transpositions (BFS) for all permutations up to length 6 (thorough: 7); instance construction clauses "
+                "(merging, representative index, |i-j|, flow clauses) on generated sequences with duplicates and ties",
+    assumptions=["E4: numpy argsort / fancy indexing yield a permutation for permutation inputs", "A4 minimum-transposition "
+                 "theorem is not used: the minimum is computed by breadth-first search in the bounded part",
+                 "termination of the cycle walk not proved"],
+)
+
 PLANS["C14"] = Plan(
     "C14", "proof",
     functions=[E1 + ":__move_down", E1 + ":__move_left", E1 + ":_decode",
@@ -194,6 +209,10 @@ PLANS["C05"] = Plan(
 
 
 META = {
+    "C20": {"text": "swap_distance proved memory-safe with result in [0, n]; equality with the minimum number of transpositions "
+                    "decided exhaustively up to length 6/7 by breadth-first search; ordering-instance clauses by a bounded harness",
+            "note": "level 'other': proof + exhaustive enumeration within the quantifier's own bound + sampling",
+            "technique": "contract-based deductive verification (bounds/range) + exhaustive bounded enumeration"},
     "C18": {"text": "coordinate distance functions proved identical (operation by operation) to the TSPLIB95 formulas; explicit "
                     "formats, wrapping, round trip checked by a bounded harness; shipped tours checked exhaustively",
             "note": "level 'other': formula identity is a proof over uninterpreted sqrt/cos/acos/trunc; parsing is bounded",
